@@ -271,6 +271,17 @@ def generate():
     parts.append('/-- every function of src/deep that contains a `try` (a function that is not listed has none, so an\n'
                  '    exception passes through it), keyed by "<path under src>:<qualified name>" -/\n'
                  'def prog : Prog :=\n  [' + ',\n   '.join(f'({lean_str(k)}, {v})' for k, v in entries) + ']\n')
+    rows = []
+    for rel, q in [(r, qq) for _, r, qq in NAMED if has_def(ctx, r, qq)] + \
+            [(r, qq) for r, qq in ctx.functions_with_try() if (r, qq) not in done]:
+        try:
+            for hid, tmpl in sorted(ctx.handlers(rel, q).items()):
+                rows.append(f'({lean_str(prog_key(rel, q))}, {lean_str(hid)}, {lean_str(tmpl or "")})')
+        except Untranslatable:
+            pass
+    parts.append('/-- (function, handler id, first logging template of the handler or "") — what a handler says when it\n'
+                 '    catches; used to compare with the real code when call-site ids are not comparable -/\n'
+                 'def handlerTemplates : List (String × String × String) :=\n  [' + ',\n   '.join(rows) + ']\n')
     parts.append('end Extracted.Guards\n')
     parts.append(lifecycle(ctx))
     parts.append(plugins_consts(ctx))
